@@ -116,16 +116,39 @@ def serial_of(v, zone):
 # ------------------------------------------------------------------------------------------------
 # running a history on the implementation
 # ------------------------------------------------------------------------------------------------
+def make_policy(tok):
+    """the callable and its description for a `P…` / `Q…` token"""
+    a = tok[1:]
+    if tok[0] == "Q":
+        x, y = (int(v) for v in a.split(":"))
+        return (lambda zone, v, x=x, y=y: (x * len(zone._versions) + v.id) % (y + 2) != 0), ("modp", x, y)
+    if a == "none":
+        return None, ("default",)
+    ids = frozenset() if a == "." else frozenset(int(v) for v in a.split(","))
+    # a predicate may answer None for "no" (bool | None in the signature)
+    return (lambda zone, v, ids=ids: True if v.id in ids else (None if v.id % 2 else False)), ("allowed", ids)
+
+
 class Run:
-    def __init__(self, zkind):
+    def __init__(self, zkind, absolute=False, ctor=None):
         self.zkind = zkind
-        self.zone = ZONES[zkind](ORIGIN)
+        self.absolute = absolute
+        self.policy = ("default",)
+        if ctor is not None:
+            # the policy handed to the constructor (the second place a policy is installed)
+            fn, self.policy = make_policy(ctor)
+            self.zone = ZONES[zkind](ORIGIN, relativize=not absolute, pruning_policy=fn)
+        else:
+            self.zone = ZONES[zkind](ORIGIN, relativize=not absolute)
+        self.oname = ORIGIN if absolute else dns.name.empty
         self.cid = {(): 0}  # deep dump -> content id
         self.readers = {}  # handle -> txn
         self.open_dump = {}  # handle -> dump at open time (public API)
         self.wtxn = None
         self.committed = [(1, 0)]  # (id, content) of everything committed, in order
-        self.policy = ("default",)
+
+    def N(self, i):
+        return NAMES[i].derelativize(ORIGIN) if self.absolute else NAMES[i]
 
     def content_of(self, dump):
         return self.cid.get(dump, "?")
@@ -140,19 +163,22 @@ class Run:
 
     def modify(self, txn, c, sn):
         """make the write transaction's content the one called `c` (unique text per c) with SOA serial `sn`"""
-        name = NAMES[1 + c % 4]
+        name = self.N(1 + c % 4)
         txn.replace(name, dns.rdataset.from_text("IN", "TXT", 60 + c % 3, f'"c{c}"'))
+        if c % 2 == 0:
+            # keeps the origin node alive when it has no SOA (reader(serial=) must skip such a version, not stop at it)
+            txn.replace(self.oname, dns.rdataset.from_text("IN", "TXT", 60, f'"o{c}"'))
         if c % 5 == 4:
-            other = NAMES[1 + (c + 1) % 4]
+            other = self.N(1 + (c + 1) % 4)
             if txn.name_exists(other):
                 txn.delete(other)
         if c % 7 == 3:
             txn.add(name, dns.rdataset.from_text("IN", "A", 30, "10.0.0.%d" % (c % 250)))
         if sn is None:
-            if txn.get(dns.name.empty, "SOA") is not None:
-                txn.delete(dns.name.empty, "SOA")
+            if txn.get(self.oname, "SOA") is not None:
+                txn.delete(self.oname, "SOA")
         else:
-            txn.replace(dns.name.empty, dns.rdataset.from_text("IN", "SOA", 60, f"ns. host. {sn} 1 1 1 1"))
+            txn.replace(self.oname, dns.rdataset.from_text("IN", "SOA", 60, f"ns. host. {sn} 1 1 1 1"))
 
     def apply(self, tok):
         z = self.zone
@@ -166,6 +192,10 @@ class Run:
                     h, i = rest.split(":")
                     h = int(h)
                     txn = z.reader(id=int(i))
+                elif kind == "B":
+                    h, i, sn = rest.split(":")
+                    h = int(h)
+                    txn = z.reader(id=int(i), serial=int(sn))
                 else:
                     h, s = rest.split(":")
                     h = int(h)
@@ -299,6 +329,15 @@ def monitor(run, tok, out, before, fails):
         bad("pruning-exact/left-over", f"oldest retained {vs[0].id} is below every pin/newest ({least}) and the policy {run.policy} allows pruning it")
     # ... and everything dropped by this operation was prunable when it was dropped
     bvs, bpolicy = before
+    # reader(): the newest committed version; reader(id=, serial=): refused; set_max_versions(n < 1): refused
+    if tok[0] == "o" and tok[1] == "L" and out.startswith("P"):
+        got = int(out[1:].split(":")[0])
+        if got != run.committed[-1][0]:
+            bad("reader-lookup", f"reader() opened version {got}, the newest committed version is {run.committed[-1][0]}")
+    if tok[0] == "o" and tok[1] == "B" and out != "EValueError":
+        bad("reader-lookup/both-selectors", "reader(id=…, serial=…) must raise ValueError")
+    if tok[0] == "M" and tok[1:] != "none" and int(tok[1:]) < 1 and out != "EValueError":
+        bad("set_max_versions/accepts-nonpositive", f"set_max_versions({tok[1:]}) must raise ValueError (at least the newest version is always kept)")
     # reader(id=) / reader(serial=): the version chosen
     if tok[0] == "o" and tok[1] in "IS":
         want = int(tok[2:].split(":")[1])
@@ -343,10 +382,16 @@ def bvs_all(before):
 
 def eval_history(ctx: Ctx, case: dict):
     zk = case["zone"]
-    run = Run(zk)
+    run = Run(zk, case.get("abs", False), case.get("ctor"))
     toks = case["ops"]
     outs = []
     fails = []
+    pre_toks = []
+    if case.get("ctor") is not None:
+        # for the model a policy given to the constructor is a policy installed by the first operation
+        pre_toks = [case["ctor"]]
+        outs.append(f"ok|{run.state_tok()}")
+    ctx.count(f"{zk}.{'absolute' if case.get('abs') else 'relativized'}" + (".ctor-policy" if pre_toks else ""))
     for tok in toks:
         before = (list(run.zone._versions), run.policy)
         out = run.apply(tok)
@@ -356,7 +401,7 @@ def eval_history(ctx: Ctx, case: dict):
         monitor(run, tok, out, before, fails)
         ctx.count(f"{zk}.op.{tok[0:2] if tok[0] == 'o' else tok[0]}" + (".err" if out.startswith("E") else ""))
     ctx.count(f"{zk}.max-retained={min(9, max((len(o.split('|')[1].split(',')) for o in outs), default=0))}")
-    ctx.corr("c11.run " + " ".join(toks), " ".join(["ok"] + outs), case)
+    ctx.corr("c11.run " + " ".join(pre_toks + toks), " ".join(["ok"] + outs), case)
     seen = set()
     for sig, what in fails:
         if sig not in seen:
@@ -1001,6 +1046,20 @@ MILD = [("add", lambda o: o.add(dns.rdata.from_text("IN", dns.rdatatype.to_text(
 
 def mutate_held(o, zone, pool, full):
     """use the object's own public mutators, as its owner may; yields the name of each mutator applied"""
+    if isinstance(o, dns.zone.Version):
+        # the version object of a write transaction that has ended, through its own (public) methods and node map
+        x = dns.name.from_text("alias", None if zone.relativize else ORIGIN)
+        acts = [("nodes[name] = node", lambda: o.nodes.__setitem__(x, zone.node_factory())),
+                ("put_rdataset", lambda: o.put_rdataset(x, dns.rdataset.from_text("IN", "TXT", 5, '"alias"'))),
+                ("delete_node", lambda: [o.delete_node(n) for n in list(o.nodes.keys())[:1]]),
+                ("nodes.clear", lambda: o.nodes.clear())]
+        for what, fn in (acts if full else acts[:2]):
+            try:
+                fn()
+            except Exception:  # noqa: BLE001
+                pass
+            yield what
+        return
     if isinstance(o, list):
         for what, fn in (("list.append", lambda: o.append(dns.rdata.from_text("IN", "A", "10.99.99.98"))),
                          ("list.pop", lambda: o.pop(0)), ("list.clear", lambda: o.clear() if full else None)):
@@ -1078,6 +1137,8 @@ def eval_alias(ctx: Ctx, case: dict):
         txn = z.writer(ti == 0)
         if ti == 0:
             txn.replace(dns.name.empty, dns.rdataset.from_text("IN", "SOA", 60, "ns1 host 1 1 1 1 1"))
+        if case.get("hold_version", True):
+            held.append((f"took as txn.version from the writer#{len(held)}", txn.version))
         for op in ops:
             kind = op[0]
             try:
@@ -1433,7 +1494,10 @@ def gen_history(rng, zk):
                 open_h.append(next_h)  # may fail; resolved by the harness below
             else:
                 s = rng.choice(serials + [0, 7]) if serials else rng.below(3)
-                ops.append(f"oS{next_h}:{s}")
+                if rng.chance(1, 6):
+                    ops.append(f"oB{next_h}:{rng.choice([newest, 1, 0])}:{s}")
+                else:
+                    ops.append(f"oS{next_h}:{s}")
                 open_h.append(next_h)
             next_h += 1
         elif x < 65 and open_h:
@@ -1460,7 +1524,13 @@ def gen_history(rng, zk):
             ops.append(f"oL{next_h}")
             open_h.append(next_h)
             next_h += 1
-    return {"kind": "history", "zone": zk, "ops": ops}
+    case = {"kind": "history", "zone": zk, "ops": ops}
+    if rng.chance(1, 4):
+        case["abs"] = True
+    if rng.chance(1, 5):
+        ids = sorted(set(rng.range(1, 4) for _ in range(rng.below(4))))
+        case["ctor"] = rng.choice(["P" + (",".join(map(str, ids)) if ids else "."), f"Q{rng.below(3)}:{rng.below(3)}", "P."])
+    return case
 
 
 def executable(case):
@@ -1472,7 +1542,7 @@ def executable(case):
 
 
 def _executable(case):
-    run = Run(case["zone"])
+    run = Run(case["zone"], case.get("abs", False), case.get("ctor"))
     ops = []
     failed = set()
     for tok in case["ops"]:
@@ -1509,6 +1579,8 @@ BOUNDARY = [
     ["w", "C1:-:0", "w", "R", "w", "C1:-:1", "M0", "M-1", "M1"],
     # several retained versions with the same serial: reader(serial=) takes the newest; a pruned serial -> KeyError
     ["Mnone", "w", "C1:6:1", "w", "C2:6:1", "w", "C3:7:1", "w", "C4:6:1", "oS1:6", "oS2:7", "oS3:5", "O1", "M1", "c1", "c2", "oS4:7", "oS5:6"],
+    # SOA dropped in a middle version whose origin node stays: reader(serial=) must look past it; both selectors refused
+    ["Mnone", "w", "C2:5:1", "w", "C4:-:1", "w", "C6:-:1", "oS1:5", "oS2:4", "oB3:2:5", "oB4:9:9", "O1"],
     # policies that are monotone neither in the id nor in the count
     ["Q1:1", "w", "C1:1:1", "w", "C2:2:1", "w", "C3:3:1", "Q0:0", "w", "C4:4:1", "Q2:1", "w", "C5:5:1", "Pnone"],
 ]
@@ -1542,10 +1614,11 @@ def run(ctx: Ctx):
         ctx.count("corpus")
     for zk in ZONES:
         for ops in BOUNDARY:
-            c = executable({"kind": "history", "zone": zk, "ops": ops})
-            ctx.case(case_key(c))
-            eval_case(ctx, c)
-            ctx.count("boundary")
+            for extra in ({}, {"abs": True}, {"ctor": "P."}, {"ctor": "Q1:1", "abs": True}):
+                c = executable(dict({"kind": "history", "zone": zk, "ops": ops}, **extra))
+                ctx.case(case_key(c))
+                eval_case(ctx, c)
+                ctx.count("boundary")
         for fresh, extended in ((False, False), (False, True), (True, True)):
             c = {"kind": "immutability", "zone": zk, "fresh": fresh, "extended": extended}
             ctx.case(case_key(c))
